@@ -2326,7 +2326,7 @@ class AddSuffix(AddPrefix):
 
     def _convert_columns(self, columns):
         len_suffix = len(self.suffix)
-        return [col[:-len_suffix] for col in columns]
+        return [col[: len(col) - len_suffix] for col in columns]
 
 
 class AssignIndex(Elemwise):
